@@ -47,6 +47,19 @@ type ClaimFile struct {
 	Assumptions    []string  `json:"assumptions,omitempty"`
 	Undecided      []string  `json:"attempted_undecided,omitempty"`
 	TimeoutS       int       `json:"timeout_s,omitempty"` // per-query solver timeout of the quick tier (default 10)
+	Kinds          []string  `json:"kinds,omitempty"`     // when set: only obligations of these kinds belong to the claim (e.g. the safety kinds for a panic-freedom claim)
+}
+
+func (c *ClaimFile) kindAllowed(kind string) bool {
+	if len(c.Kinds) == 0 {
+		return true
+	}
+	for _, k := range c.Kinds {
+		if k == kind {
+			return true
+		}
+	}
+	return false
 }
 
 type Evidence struct {
@@ -155,7 +168,7 @@ func CmdCheck(args []string) int {
 			failures = append(failures, failure{name: key + "#structure#1", status: "contract-error", desc: er})
 		}
 		for _, o := range u.Obls {
-			if !hasTag(o.Tags, claim.Property) {
+			if !hasTag(o.Tags, claim.Property) || !claim.kindAllowed(o.Kind) {
 				continue
 			}
 			if o.Smoke {
@@ -240,7 +253,12 @@ func CmdCheck(args []string) int {
 	violations := 0
 	knownPrinted := []string{}
 	var lines []string
+	seenFailure := map[string]bool{}
 	for _, f := range failures {
+		if seenFailure[f.name] {
+			continue // one report per obligation (a contract error can be found once per clause)
+		}
+		seenFailure[f.name] = true
 		isKnown := false
 		for _, k := range known.Findings {
 			if k.Property == claim.Property && k.Status == "open" && k.Obligation == f.name {
